@@ -64,7 +64,9 @@ PLANS = {
                     dict(model="MC_Fmt", quick="MC_Fmt_c17.cfg", thorough="MC_Fmt_c17.cfg")]),
     "C18": dict(mc=[dict(model="MC_BigNat", quick="MC_BigNat_quick.cfg", thorough="MC_BigNat_thorough.cfg")],
                 mcgen=[dict(model="MC_Arith", quick="MC_Arith_quick.cfg", thorough="MC_Arith_thorough.cfg")], drive=True),
-    "C20": dict(configs=dict(quick=C20_CONFIGS[:4], thorough=C20_CONFIGS), drive=False, shard=2500),
+    "C20": dict(configs=dict(quick=C20_CONFIGS[:4], thorough=C20_CONFIGS), drive=False, shard=2500,
+                mc=[dict(model="MC_Fmt", quick="MC_Fmt_c17.cfg", thorough="MC_Fmt_quick.cfg"),
+                    dict(model="MC_Round", quick="MC_Round_c20.cfg", thorough="MC_Round_quick.cfg")]),
     "C19": dict(
         check_forms=["add", "sub", "mul"],
         mc=[dict(model="MC_Programs", quick="MC_Programs_quick.cfg", thorough="MC_Programs_thorough.cfg")],
